@@ -223,8 +223,24 @@ def main(argv=None):
     t0 = time.time()
     try:
         result = mod.run(ctx)
-    except Exception:
-        traceback.print_exc()
+    except Exception as e:
+        tb = traceback.format_exc()
+        print(tb)
+        # an exception that escapes from the implementation under test (import of the package / the generator
+        # fails, a public entry point raises where the harness expects none) is a violation of the property the
+        # check was about to decide; anything else is a harness error
+        from . import impl
+        frames = traceback.extract_tb(e.__traceback__)
+        in_repo = [f for f in frames if os.path.realpath(f.filename).startswith(impl.REPO + os.sep)]
+        if in_repo or isinstance(e, (ImportError, AttributeError)) and "lsprotocol" in tb:
+            v = Violation(prop, "implementation-raises", os.path.relpath(in_repo[-1].filename, impl.REPO) if in_repo else "import",
+                          "the implementation raised %s: %s while the check was running (last frame in the repository: %s)" % (
+                              type(e).__name__, str(e)[:200], ("%s:%d %s" % (os.path.relpath(in_repo[-1].filename, impl.REPO), in_repo[-1].lineno, in_repo[-1].name)) if in_repo else "-"),
+                          {"engine": "runner", "traceback": tb[-3000:], "input": None}, extra=type(e).__name__)
+            path = write_replay(v)
+            print("VIOLATION property=%s replay=%s" % (prop, path))
+            print("  " + v.sig + " :: " + v.what)
+            return 1
         print("check %s: internal error (no verdict)" % prop)
         return 2
     wall = time.time() - t0
